@@ -207,7 +207,21 @@ def errname_tb(e: BaseException) -> str:
     return "".join(traceback.format_exception(type(e), e, e.__traceback__))[-1500:]
 
 
+def devnull_ok() -> bool:
+    import stat
+
+    try:
+        return stat.S_ISCHR(os.stat("/dev/null").st_mode)
+    except OSError:
+        return False
+
+
 def main():
+    if not devnull_ok():
+        print("runner: /dev/null is not a character device BEFORE the check started (environment damaged by something else)", file=sys.stderr)
+    import atexit
+
+    atexit.register(lambda: None if devnull_ok() else print(f"runner: /dev/null is not a character device after check {sys.argv[1:]}", file=sys.stderr))
     ap = argparse.ArgumentParser()
     ap.add_argument("prop")
     ap.add_argument("--tier", default=os.environ.get("VERIF_TIER", "quick"))
